@@ -212,6 +212,8 @@ type pend struct {
 type Broker struct {
 	// BadUpAlias, if not 0, is the alias the next "bad alias" chunk uses (instead of a far-away number)
 	BadUpAlias uint32
+	// HoldMetadata: while set, metadata acks are kept pending whatever AutoReq says
+	HoldMetadata bool
 	s          *Sim
 	Cfg        BrokerCfg
 	Conns      []*bConn
@@ -598,7 +600,7 @@ func (b *Broker) Handle(l *Link, m message.Message) {
 		if mk := metaMarker(t); len(mk) > 5 && mk[5] == '!' { // callers ask for a failure code by name
 			mcode = message.ResultCodeProcessFailed
 		}
-		b.reply(b.Cfg.AutoReq, &pend{Kind: "resp", Link: l, Desc: "metadata-ack " + metaMarker(t), Msg: &message.UpstreamMetadataAck{
+		b.reply(b.Cfg.AutoReq && !b.HoldMetadata, &pend{Kind: "resp", Link: l, Desc: "metadata-ack " + metaMarker(t), Msg: &message.UpstreamMetadataAck{
 			RequestID: t.RequestID, ResultCode: mcode, ResultString: metaMarker(t), ExtensionFields: &message.UpstreamMetadataAckExtensionFields{}}})
 	case *message.UpstreamCall:
 		call := &bCall{Order: b.next(), Link: l.ID, Msg: t}
